@@ -282,7 +282,7 @@ def predicate(ck, sv, mir, case, res, enabled):
                     bad("C10:hint-names-no-candidate", "several members qualify and the hint %r names none of them: add() returns "
                         "normally and stores nothing" % hint, expected="an exception naming the valid hints %s" % S)
                 else:
-                    bad("C10:no-unique-member:%s:%s" % (parent_cls, child_cls), "add() does not raise / changes the parent "
+                    bad("C10:no-unique-member", "add() does not raise / changes the parent "
                         "although no unique member can be determined", expected="an exception, parent unchanged")
             continue
         target = S[0] if len(S) == 1 else hint
@@ -293,19 +293,19 @@ def predicate(ck, sv, mir, case, res, enabled):
                 "exception of the child's __str__ (%s) comes out of add()" % r.get("exc"), expected="a warning, no exception")
             continue
         if code not in (0, 4) or (code == 4 and not (enabled and call["validate"])):
-            bad(keyslip or "C10:raises-although-member-exists:%s:%s" % (parent_cls, child_cls),
+            bad(keyslip or "C10:raises-although-member-exists",
                 "add(%s) to a %s raises (%s) although the schema declares member %s for it" % (child_cls, parent_cls, r.get("exc"), target),
                 expected="stored under %s" % target)
             continue
         if any(m != target for m in r["changed"]):
-            bad(keyslip or "C10:other-member-touched:%s:%s" % (parent_cls, child_cls),
+            bad(keyslip or "C10:other-member-touched",
                 "members other than %s changed: %s" % (target, r["changed"]), expected=[target])
             continue
         held = dict((k, n) for k, n in (r["holds_ret"] if "holds_ret" in r else r["holds_child"]))
         held_before = dict((k, n) for k, n in r["held_before"])
         elsewhere = [k for k in held if k != target and held[k] != held_before.get(k, 0)]
         if elsewhere:
-            bad("C10:stored-elsewhere:%s:%s" % (parent_cls, child_cls), "the child now also sits in %s" % elsewhere, expected=[target])
+            bad("C10:stored-elsewhere", "the child now also sits in %s" % elsewhere, expected=[target])
         if code == 0 and ch["kind"] != "cls" and not r.get("ret_is_child"):
             bad("C10:returns-another-object", "add() did not return the object it was given")
         if code == 0 and ch["kind"] == "cls" and (r.get("ret") or {}).get("cls") != child_cls:
@@ -321,21 +321,21 @@ def predicate(ck, sv, mir, case, res, enabled):
             now = field_of(cur, target)
             if dup and not force:
                 if r["changed"] or [2, target] not in r["warn"]:
-                    bad("C10:duplicate-not-refused:%s:%s" % (parent_cls, child_cls), "an equal child is already in %s: expected a warning and no change" % target)
+                    bad("C10:duplicate-not-refused", "an equal child is already in %s: expected a warning and no change" % target)
             else:
                 ok = isinstance(now, dict) and "l" in now and now["l"][:-1] == slot["l"] and now["l"] and now["l"][-1] == value \
                     and held.get(target, 0) == held_before.get(target, 0) + 1
                 if not ok:
-                    bad("C10:not-appended:%s:%s" % (parent_cls, child_cls), "the child was not appended to %s" % target)
+                    bad("C10:not-appended", "the child was not appended to %s" % target)
         else:
             occupied = slot not in (None, "MISSING", {"l": []}, {"s": ""}, {"i": 0})
             if occupied and not force:
                 if r["changed"] or [1, target] not in r["warn"]:
-                    bad("C10:occupied-not-refused:%s:%s" % (parent_cls, child_cls), "%s is occupied: expected a warning and no change" % target)
+                    bad("C10:occupied-not-refused", "%s is occupied: expected a warning and no change" % target)
             else:
                 now = field_of(cur, target)
                 if now != {"o": value} or held.get(target, 0) != 1:
-                    bad("C10:not-stored:%s:%s" % (parent_cls, child_cls), "%s does not hold the child afterwards" % target)
+                    bad("C10:not-stored", "%s does not hold the child afterwards" % target)
 
 
 # ------------------------------------------------------------------------------------------------ run
